@@ -220,6 +220,7 @@ def traces(rep, tier):
      'empty': 'async def f() -> AsyncGenerator[object, object]:\n    return\n    yield\n',
      'swallow': 'async def f() -> AsyncGenerator[object, object]:\n    try:\n        yield 1\n    except GeneratorExit:\n        return\n',
      'catchbase': 'async def f() -> AsyncGenerator[object, object]:\n    while True:\n        try:\n            x = yield 1\n        except BaseException as e:\n            if isinstance(e, GeneratorExit): raise\n            LOG.append("caught " + type(e).__name__); x = yield -2\n        finally:\n            LOG.append("cleanup")\n',
+     'catchret': 'async def f() -> AsyncGenerator[object, object]:\n    try:\n        yield 1\n        yield 2\n    except ValueError:\n        LOG.append("caught, finishing")\n        return\n',
      'reraise': 'async def f() -> AsyncGenerator[object, object]:\n    try:\n        yield 1\n    except BaseException as e:\n        LOG.append(type(e).__name__); raise\n',
     }
     SBODIES = {k: v.replace('async def', 'def').replace('AsyncGenerator[object, object]', 'Generator[object, object, object]') for k, v in BODIES.items()}
